@@ -33,7 +33,7 @@ def ws_init():
         shutil.copy(os.path.join(REPO, "Cargo.lock"), lock)
     # the support crate is copied into the workspace (members must live below the root)
     dst = os.path.join(WS, "vsupport")
-    for rel in ("Cargo.toml", "src/lib.rs", "src/bin/strenv.rs"):
+    for rel in ("Cargo.toml", "src/lib.rs", "src/probe.rs", "src/bin/strenv.rs"):
         a, b = os.path.join(SUPPORT, rel), os.path.join(dst, rel)
         if not os.path.exists(a):
             continue
